@@ -47,7 +47,9 @@ class Ctx:
         self.time_budget = float(self.params.get("time_budget", 1e9))
         self.evaluations = 0
         self.hashes = set()
+        self.partitioned = set()   # keys of cases that only this shard can own (hash-partitioned enumeration)
         self.trivial = 0
+        self.trivial_partitioned = 0
         self.monitors = collections.Counter()
         self.observed = collections.defaultdict(collections.Counter)
         self.samples = []
@@ -74,11 +76,15 @@ class Ctx:
         return self.time_left() <= 0
 
     # ---- cases
-    def begin_case(self, case, nontrivial=True, key=None):
+    def begin_case(self, case, nontrivial=True, key=None, partitioned=False):
         """Register the case about to be executed (also written to disk so that a crash can be replayed)."""
         self.current = case
         self.evaluations += 1
-        if nontrivial:
+        if partitioned:
+            self.partitioned.add(key)
+            if not nontrivial:
+                self.trivial_partitioned += 1
+        elif nontrivial:
             self.hashes.add(key if key is not None else case_hash(case))
         else:
             self.trivial += 1
@@ -124,6 +130,7 @@ class Ctx:
         summary = {
             "status": status, "shard": self.shard, "evaluations": self.evaluations,
             "hashes": sorted(self.hashes), "trivial": self.trivial,
+            "partitioned_distinct": len(self.partitioned) - self.trivial_partitioned,
             "monitors": dict(self.monitors),
             "observed": {k: dict(v) for k, v in self.observed.items()},
             "samples": self.samples, "fail_counts": dict(self.fail_counts),
